@@ -31,6 +31,9 @@ PROPS = ["shape", "num_fields", "name", "fields", "units", "data", "metadata"]
 
 
 def make_registry():
+    from pyvc.path import PathCtx
+
+    PathCtx.PRUNE_MS = 5000  # path-feasibility queries here are trivial; a generous budget keeps the set of explored paths stable on a loaded machine
     reg = registry()
     cm.install(reg)
     for c in CONTRACTS:
@@ -553,6 +556,18 @@ C_VUNITS = Contract(f"{VAL}:validate_vector_units", setup=vu_setup, ensures=T(vu
 # item kinds: arr2 = 2-D array with symbolic column count, arr1 / arr3 = 1-D / 3-D array, none = not an array,
 # list = nested python list convertible to a 1 x 2 array
 
+import abc
+
+
+class ValueError_or_IndexError(Exception, metaclass=abc.ABCMeta):
+    """An item of the wrong dimensionality / column count must be rejected; the documented class is ValueError, the code's
+    `item.shape[1]` on a 1-D item gives IndexError - the contract accepts either class (the property does not care which)."""
+
+    @classmethod
+    def __subclasshook__(cls, C):
+        return issubclass(C, (ValueError, IndexError)) or NotImplemented
+
+
 ITEM_COMBOS = [(), ("arr2",), ("arr1",), ("arr3",), ("none",), ("list",), ("arr2", "arr2"), ("arr2", "arr3"), ("arr2", "none"),
                ("arr2", "arr1"), ("none", "arr2"), ("list", "arr2"), ("arr2", "arr2", "arr2")]
 
@@ -578,20 +593,21 @@ def item_cols(x):
 
 
 def first_bad(kinds, items, nf):
-    """Per exception class: condition that the FIRST offending item (in list order) is of that class."""
-    conds = {"TypeError": [], "ValueError": [], "IndexError": []}
+    """Per exception class: condition that the FIRST offending item (in list order) is of that class.
+    ShapeError: not two-dimensional, or the wrong number of columns."""
+    conds = {"TypeError": [], "ShapeError": []}
     earlier = []
     for k, x in zip(kinds, items):
         pre = AND(*earlier) if earlier else z3.BoolVal(True)
         if k == "none":
             conds["TypeError"].append(pre)
             earlier.append(z3.BoolVal(False))
-        elif k == "arr1":
-            conds["IndexError"].append(pre)
+        elif k in ("arr1", "arr3"):
+            conds["ShapeError"].append(pre)
             earlier.append(z3.BoolVal(False))
         else:
             good = B(S(item_cols(x)) == S(nf))
-            conds["ValueError"].append(AND(pre, NOT(good)))
+            conds["ShapeError"].append(AND(pre, NOT(good)))
             earlier.append(good)
     return {k: (OR(*v) if v else z3.BoolVal(False)) for k, v in conds.items()}
 
@@ -607,9 +623,9 @@ def vd_setup(ctx):
 
 def vd_bad(s):
     if not isinstance(s.data, list):
-        return {"TypeError": z3.BoolVal(True), "ValueError": z3.BoolVal(False), "IndexError": z3.BoolVal(False)}
+        return {"TypeError": z3.BoolVal(True), "ShapeError": z3.BoolVal(False)}
     if len(s.data) != s.shape[0]:
-        return {"TypeError": z3.BoolVal(False), "ValueError": z3.BoolVal(True), "IndexError": z3.BoolVal(False)}
+        return {"TypeError": z3.BoolVal(False), "ShapeError": z3.BoolVal(True)}
     kinds = getattr(s, "kinds", None) or kinds_of(s.data)
     return first_bad(kinds, s.data, s.num_fields)
 
@@ -643,8 +659,7 @@ def vd_result(ctx, s):
 
 C_VDATA = Contract(f"{VAL}:validate_vector_data", setup=vd_setup, ensures=vd_ensures, result=vd_result,
                    requires=lambda s: [("shape-is-1d-concrete", isinstance(s.shape, tuple) and len(s.shape) >= 1 and isinstance(s.shape[0], int))],
-                   raises={TypeError: lambda s: vd_bad(s)["TypeError"], ValueError: lambda s: vd_bad(s)["ValueError"],
-                           IndexError: lambda s: vd_bad(s)["IndexError"]})
+                   raises={TypeError: lambda s: vd_bad(s)["TypeError"], ValueError_or_IndexError: lambda s: vd_bad(s)["ShapeError"]})
 
 
 def vi_setup(ctx):
@@ -657,17 +672,17 @@ def vi_setup(ctx):
 def vi_bad(s):
     F, T = z3.BoolVal(False), z3.BoolVal(True)
     if not isinstance(s.data, list):
-        return {"TypeError": T, "ValueError": F, "IndexError": F}
+        return {"TypeError": T, "ShapeError": F}
     if len(s.data) == 0:
-        return {"TypeError": F, "ValueError": T, "IndexError": F}
+        return {"TypeError": F, "ShapeError": T}
     kinds = getattr(s, "kinds", None) or kinds_of(s.data)
     if kinds[0] == "none":
-        return {"TypeError": T, "ValueError": F, "IndexError": F}
-    if kinds[0] == "arr1":
-        return {"TypeError": F, "ValueError": F, "IndexError": T}
+        return {"TypeError": T, "ShapeError": F}
+    if kinds[0] in ("arr1", "arr3"):
+        return {"TypeError": F, "ShapeError": T}
     fb = first_bad(kinds, s.data, item_cols(s.data[0]))
     # a non-array item after the first one is reported as ValueError by this function
-    return {"TypeError": F, "ValueError": OR(fb["ValueError"], fb["TypeError"]), "IndexError": fb["IndexError"]}
+    return {"TypeError": F, "ShapeError": OR(fb["ShapeError"], fb["TypeError"])}
 
 
 def vi_ensures(s):
@@ -683,8 +698,7 @@ def vi_ensures(s):
 
 C_VINFER = Contract(f"{VAL}:validate_vector_data_for_inference", setup=vi_setup, ensures=vi_ensures,
                     result=lambda ctx, s: ((len(s.data),), item_cols(s.data[0])),
-                    raises={TypeError: lambda s: vi_bad(s)["TypeError"], ValueError: lambda s: vi_bad(s)["ValueError"],
-                            IndexError: lambda s: vi_bad(s)["IndexError"]})
+                    raises={TypeError: lambda s: vi_bad(s)["TypeError"], ValueError_or_IndexError: lambda s: vi_bad(s)["ShapeError"]})
 
 
 # ------------------------------------------------------------------------------------------------
@@ -1781,11 +1795,10 @@ def fd_setup(ctx):
 
 
 def fd_errors(s):
-    F, T = z3.BoolVal(False), z3.BoolVal(True)
     base = vi_bad(NS(data=s.data, kinds=s.kinds))
-    infer_ok = NOT(OR(base["TypeError"], base["ValueError"], base["IndexError"]))
+    infer_ok = NOT(OR(base["TypeError"], base["ShapeError"]))
     mismatch = s.num_fields is not None and s.num_fields != 2
-    return dict(TypeError=base["TypeError"], IndexError=base["IndexError"], ValueError=OR(base["ValueError"], AND(infer_ok, mismatch)))
+    return dict(TypeError=base["TypeError"], ShapeError=OR(base["ShapeError"], AND(infer_ok, mismatch)))
 
 
 def fd_ensures(s):
@@ -1806,7 +1819,7 @@ def fd_ensures(s):
 
 
 C_FROM_DATA = Contract(f"{VEC}:Vector.from_data", setup=fd_setup, ensures=fd_ensures,
-                       raises={TypeError: lambda s: fd_errors(s)["TypeError"], ValueError: lambda s: fd_errors(s)["ValueError"], IndexError: lambda s: fd_errors(s)["IndexError"]})
+                       raises={TypeError: lambda s: fd_errors(s)["TypeError"], ValueError_or_IndexError: lambda s: fd_errors(s)["ShapeError"]})
 
 
 # setters: what each one guarantees on its own (they are NOT among the operations listed in the property statement)
@@ -1857,7 +1870,7 @@ def ds_ensures(s):
 
 
 C_SET_DATA_PROP = Contract(f"{VEC}:Vector.data.fset", setup=ds_setup, requires=lambda s: inv(s.self), ensures=ds_ensures, snapshot=lambda s: snap_vec(s.self),
-                           raises={TypeError: lambda s: ds_errors(s)["TypeError"], ValueError: lambda s: ds_errors(s)["ValueError"], IndexError: lambda s: ds_errors(s)["IndexError"]},
+                           raises={TypeError: lambda s: ds_errors(s)["TypeError"], ValueError_or_IndexError: lambda s: ds_errors(s)["ShapeError"]},
                            on_raise=raise_unchanged)
 
 CONTRACTS = [C_NESTED, C_VSHAPE, C_VFIELDS, C_VNUM, C_VUNITS, C_VDATA, C_VINFER, C_INIT, C_FROM_SHAPE, C_COPY, C_GET_DATA, C_GETITEM, C_SET_DATA, C_SETITEM,
@@ -2173,6 +2186,11 @@ def verdict(problems, expected):
     return dict(violated=bool(problems), observed="; ".join(map(str, problems[:3])) or "ok", expected=expected)
 
 
+def _quiet_late(f):
+    return lambda inp: quiet(f)(inp)
+
+
+@_quiet_late
 def rt_index_op(inp):
     """get_data / getitem / set_data / setitem on one concrete case."""
     op, shape, specs = inp["op"], tuple(inp["shape"]), list(inp["idx"])
@@ -2311,6 +2329,8 @@ for _c, _pick, _inputs, _cv in ((C_GET_DATA, "gd_case", GD_INPUTS, False), (C_GE
 
 
 def quiet(f):
+    """Run-time oracle wrapper: silences prints of the real code; an exception escaping the oracle itself (i.e. from a real call that
+    the oracle expects to succeed) is a violation with the exception as the observation, never a crash of the check."""
     import contextlib
     import functools
     import io
@@ -2318,10 +2338,15 @@ def quiet(f):
     @functools.wraps(f)
     def g(inp):
         with contextlib.redirect_stdout(io.StringIO()):
-            return f(inp)
+            try:
+                return f(inp)
+            except Exception as e:  # noqa: BLE001
+                return dict(violated=True, klass=f"{inp.get('op', 'history')}|unexpected-exception", observed=f"unexpected {type(e).__name__}: {e}",
+                            expected="the operation succeeds on this valid input")
     return g
 
 
+@quiet
 def rt_create(inp):
     """Creation paths and sharing: from_shape / __init__ default arguments / from_data / copy / nested_list."""
     from quantem.core.datastructures import vector as vm
@@ -2459,6 +2484,44 @@ def rt_fields(inp):
         problems.append(f"after {op}: {d}")
     problems += real_inv_problems(v)
     return verdict(problems, "same result / exception / state as the list-of-cells reference model; invariant holds")
+
+
+def rt_validators(inp):
+    """The validators' contracts on concrete arguments."""
+    from quantem.core.utils import validators as vv
+
+    op, args = inp["op"], inp["args"]
+    args = [tuple(a["tuple"]) if isinstance(a, dict) and "tuple" in a else a for a in args]
+    f = getattr(vv, op)
+    if op == "validate_fields":
+        x = args[0]
+        exp = "TypeError" if not isinstance(x, (list, tuple)) else "ValueError" if len(set(x)) != len(x) else list(x)
+    elif op == "validate_shape":
+        x = args[0]
+        exp = "TypeError" if not isinstance(x, tuple) else next(("TypeError" if not isinstance(d, int) else "ValueError" for d in x if not isinstance(d, int) or d <= 0), tuple(x))
+    elif op == "validate_num_fields":
+        n, fl = args[0], (args[1] if len(args) > 1 else None)
+        exp = "TypeError" if not isinstance(n, int) else "ValueError" if n <= 0 or (fl is not None and len(fl) != n) else n
+    else:
+        u, n = args
+        exp = ["none"] * n if u is None else "TypeError" if not isinstance(u, (list, tuple)) else "ValueError" if len(u) != n else list(u)
+    try:
+        got = f(*args)
+    except Exception as e:  # noqa: BLE001
+        got = type(e).__name__
+    bad = got != exp or (isinstance(got, list) and any(got is a for a in args))
+    return verdict([f"{op}{tuple(args)} -> {got!r}, expected {exp!r}"] if bad else [], "validated copy of the argument, or TypeError / ValueError exactly when the argument is malformed")
+
+
+VAL_INPUTS = {
+    "validate_fields": [[["a", "b"]], [["a", "a"]], [["a", "b", "a"]], [[]], [{"tuple": ["a", "b"]}], [{"tuple": ["a", "a"]}], ["ab"], [None], [["a", "b", "c"]]],
+    "validate_shape": [[{"tuple": []}], [{"tuple": [2]}], [{"tuple": [2, 3, 1]}], [{"tuple": [2, 0]}], [{"tuple": [-1]}], [[2, 3]], [{"tuple": [2, 2.5]}], [{"tuple": [0, 2.5]}], [None]],
+    "validate_num_fields": [[2], [0], [-3], [2.0], [None], [2, ["a", "b"]], [3, ["a", "b"]], [1, []]],
+    "validate_vector_units": [[None, 0], [None, 3], [["m", "s"], 2], [["m"], 2], [{"tuple": ["m", "s"]}, 2], ["ms", 2], [[], 0], [["m", "s", "k"], 2]],
+}
+for _c in (C_VFIELDS, C_VSHAPE, C_VNUM, C_VUNITS):
+    _n = _c.func.split(":")[1]
+    _c.rt, _c.rt_family = rt_validators, (lambda n=_n: iter([dict(op=n, args=a) for a in VAL_INPUTS[n]]))
 
 
 def simple_family(inputs):
@@ -2753,7 +2816,10 @@ def bounded_histories(tier, seed):
         n += 1
         distinct.add(str(sorted(inp.items())))
         with contextlib.redirect_stdout(io.StringIO()):
-            fs = run_history(inp)
+            try:
+                fs = run_history(inp)
+            except Exception as e:  # noqa: BLE001
+                fs = [(-1, "history|unexpected-exception", f"unexpected {type(e).__name__}: {e}")]
         for step, klass, msg in fs:
             fails.append(dict(case=dict(inp, step=step), klass=klass, observed=msg, expected=HISTORY_EXPECT))
     return dict(evaluations=n, distinct=len(distinct), failures=fails)
@@ -2771,6 +2837,7 @@ def fam_history(tier="quick", seed=0):
                     yield dict(shape=list(shape), nf=nf, mask=mask, steps=8, ops=HISTORY_OPS, seed=seed * 1000 + sd + 17 * nf + 101 * len(shape))
 
 
+@quiet
 def rt_sharing(inp):
     """Two vectors created independently (and a copy) must not observe each other's mutations - through ANY public handle."""
     from quantem.core.datastructures.vector import Vector as RV
